@@ -43,7 +43,18 @@ type Frame struct {
 	lets    map[string]SpecVar
 }
 
+type autoCand struct {
+	name string
+	comp string
+	pre  Term
+	a0   Term
+	phi  *ssa.Phi // integer bound candidate: phi op c
+	op   string
+	c    Term
+}
+
 type loopInfo struct {
+	auto    []autoCand
 	pre     State
 	header  *ssa.BasicBlock
 	ordinal int
@@ -658,6 +669,32 @@ func (x *Exec) cutLoop(fr *Frame, li *loopInfo, bc Term, st State) State {
 		}
 		nst[c] = x.C.Fresh(c+"_lp", sort)
 	}
+	li.auto = nil
+	if len(invs) == 0 {
+		a0 := x.comp(fr.entrySt, "alloc")
+		for _, c := range sortedKeys(written) {
+			sort, ok := x.E.CompSorts[c]
+			if !ok || c == "alloc" {
+				continue
+			}
+			if _, isArr := elemOfArr(sort); !isArr || strings.HasPrefix(c, "G_") || strings.HasPrefix(c, "Map_") {
+				continue
+			}
+			// two candidates: unchanged below the allocation mark at loop entry (stronger), or at function entry
+			for _, lvl := range []struct {
+				tag string
+				a   Term
+			}{{"pre", x.comp(st, "alloc")}, {"entry", a0}} {
+				name := fmt.Sprintf("auto:%s:loop%d:%s:%s", fnName, li.ordinal, c, lvl.tag)
+				if x.autoExcl[name] {
+					continue
+				}
+				li.auto = append(li.auto, autoCand{name: name, comp: c, pre: x.comp(st, c), a0: lvl.a})
+				x.C.Assume(bc, T(SBool, fmt.Sprintf("(forall ((q Int)) (! (=> (and (<= 0 q) (< q %s)) (= (select %s q) (select %s q))) :pattern ((select %s q))))", lvl.a.S, nst[c].S, x.comp(st, c).S, nst[c].S)))
+				break
+			}
+		}
+	}
 	for _, ins := range li.header.Instrs {
 		phi, ok := ins.(*ssa.Phi)
 		if !ok {
@@ -665,6 +702,28 @@ func (x *Exec) cutLoop(fr *Frame, li *loopInfo, bc Term, st State) State {
 		}
 		fv := x.freshValue(phi.Type(), "phi_"+sanitize(phi.Comment))
 		x.assumeValueInv(nst, bc, fv)
+		if len(invs) == 0 && fv.Kind == VTerm && fv.T.Sort == SInt {
+			// bound candidates from a constant initial value
+			for i, p := range li.header.Preds {
+				if li.header.Dominates(p) {
+					continue
+				}
+				if cst, ok := phi.Edges[i].(*ssa.Const); ok && cst.Value != nil {
+					cv := x.constValue(cst)
+					if cv.Kind == VTerm && cv.T.Sort == SInt {
+						for _, op := range []string{">=", "<="} {
+							name := fmt.Sprintf("auto:%s:loop%d:%s%s%s", fnName, li.ordinal, sanitize(phi.Comment+phi.Name()), map[string]string{">=": "ge", "<=": "le"}[op], sanitize(cv.T.S))
+							if x.autoExcl[name] {
+								continue
+							}
+							li.auto = append(li.auto, autoCand{name: name, phi: phi, op: op, c: cv.T})
+							x.C.Assume(bc, T(SBool, app(op, fv.T.S, cv.T.S)))
+						}
+					}
+				}
+				break
+			}
+		}
 		fr.vals[phi] = fv
 	}
 	// 3. assume invariants
@@ -686,6 +745,32 @@ func (x *Exec) cutLoop(fr *Frame, li *loopInfo, bc Term, st State) State {
 
 // checkBackEdge: at the end of a latch block, the invariant must hold for the next iteration.
 func (x *Exec) checkBackEdge(fr *Frame, from *ssa.BasicBlock, li *loopInfo, ec Term, st State) {
+	for _, ac := range li.auto {
+		if ac.phi != nil {
+			pi := -1
+			for i, p := range li.header.Preds {
+				if p == from {
+					pi = i
+				}
+			}
+			nv := fr.value(ac.phi.Edges[pi])
+			if nv.Kind != VTerm {
+				continue
+			}
+			body := T(SBool, app(ac.op, nv.T.S, ac.c.S))
+			g := &Goal{Name: ac.name, Func: fnKey(fr.fn), Kind: "auto-inv", Text: "generated loop bound candidate"}
+			if Implies(ec, body).S != "true" {
+				x.C.AddGoal(g, ec, body)
+			}
+			continue
+		}
+		cur := x.comp(st, ac.comp)
+		body := T(SBool, fmt.Sprintf("(forall ((q Int)) (=> (and (<= 0 q) (< q %s)) (= (select %s q) (select %s q))))", ac.a0.S, cur.S, ac.pre.S))
+		g := &Goal{Name: ac.name, Func: fnKey(fr.fn), Kind: "auto-inv", Text: "generated loop frame candidate: " + ac.comp + " unchanged below the entry allocation mark"}
+		if Implies(ec, body).S != "true" {
+			x.C.AddGoal(g, ec, body)
+		}
+	}
 	if fr.con == nil {
 		return
 	}
